@@ -352,6 +352,7 @@ func runIncentives(t *testing.T, seed int64, n int, dir string) {
 		exportImport := func() {
 			ctx := h.Ctx
 			pre, _, _, _ := readGauges(ctx)
+			preRaw := rawStoreMap(ctx, h.App.GetKey(incentivestypes.StoreKey))
 			preLast := ik.GetLastGaugeID(ctx)
 			preLockable := fmt.Sprint(ik.GetLockableDurations(ctx))
 			cdc := h.App.AppCodec()
@@ -422,6 +423,16 @@ func runIncentives(t *testing.T, seed int64, n int, dir string) {
 			if l := fmt.Sprint(ik.GetLockableDurations(ctx)); l != preLockable {
 				o.Fail("incentives:export-import:lockable-durations", preLockable+" -> "+l)
 			}
+			incentivesDerivedOracle(o, preRaw, rawStoreMap(ctx, h.App.GetKey(incentivestypes.StoreKey)), func(id uint64) (string, bool) {
+				g := pre[id]
+				if g == nil {
+					return "", false
+				}
+				if g.status != "F" && !now.Before(g.start) {
+					return "A", true
+				}
+				return g.status, true
+			})
 			var ld []string
 			for _, d := range ik.GetLockableDurations(ctx) {
 				ld = append(ld, fmt.Sprint(int64(d)))
